@@ -312,7 +312,13 @@ def pdom_sched(ctx, prog):
             ctx.missing(R, "invalidate_nodes_created_on_rhs in recompute_one")
         sched_after(ctx, R, prog, F, "lhs_change:invalidate", [t.bb for t in inr],
                     sink_names=("State::propagate_invalidity",), excuse={})
-    F = ctx.need_fn(R, q.NODE + "copy_child_bindrhs")
+    F = prog.fn(q.NODE + "copy_child_bindrhs")
+    if F is None:
+        # the helper has one caller; inlined into recompute_one its invalidate_node call is covered by the
+        # `expert:invalid` obligation above, which then must have seen both arms
+        RO = prog.fn(q.NODE_IMPL + "recompute_one")
+        if RO is None or len(q.calls_in(RO, "ErasedNode>::invalidate_node")) < 2:
+            ctx.missing(R, q.NODE + "copy_child_bindrhs (or its body inlined into recompute_one)")
     if F is not None:
         inv = q.calls_in(F, "ErasedNode>::invalidate_node")
         n += len(inv)
